@@ -81,6 +81,15 @@ def run_impl(case):
   res['geos_in_data'] = sorted(int(g) for g in data.geos_in_data)
   res['elig_geos'] = sorted(int(g) for g in data.geo_eligibility.data.index)
   res['assignable'] = sorted(int(g) for g in data.assignable)
+  # a second data object (another response column of the same geos), alive at the same time and used in between
+  other = None
+  try:
+    df2 = df.copy(deep=True)
+    df2['response'] = df2['response'] * 3.0 + 1.0
+    other = tbrmmdata.TBRMMData(df2, 'response', ge)
+  except Exception:
+    other = None
+  res['interference'] = []
   rng = random.Random(case['seed'])
   res['aggr'] = []
   pool = res['elig_geos'] + ([res['geos_in_data'][0]] if res['geos_in_data'] else [])
@@ -92,7 +101,17 @@ def run_impl(case):
     idx = sorted(rng.sample(range(len(gi)), rng.randint(1, len(gi))))
     try:
       data.geo_index = [str(g) for g in gi]
+      s0 = [float(v) for v in data.aggregate_time_series(set(idx))]
+      if other is not None:
+        try:
+          other.geo_index = [str(g) for g in gi]
+          other.aggregate_time_series(set(idx))
+          other.aggregate_geo_share(set(idx))
+        except Exception:
+          pass
       s = [float(v) for v in data.aggregate_time_series(set(idx))]
+      if s != s0:
+        res['interference'].append((gi, idx))
       sh = float(data.aggregate_geo_share(set(idx)))
       ga = data.geo_assignments
       res['aggr'].append((gi, idx, (s, sh), sorted(int(i) for i in ga.all)))
@@ -106,6 +125,9 @@ def run_impl(case):
 def oracle(case, r):
   """The property recomputed from the specification with exact fractions."""
   fails = []
+  if r.get('interference'):
+    fails.append('aggregate over %s of geo index %s changed after a second TBRMMData object (same geos, other response) '
+                 'was indexed and aggregated in between' % (r['interference'][0][1], r['interference'][0][0]))
   rows = case['rows']
   geos = sorted({g for g, _, _ in rows})
   dates = sorted({d for _, d, _ in rows})
